@@ -114,6 +114,7 @@ def run(an: Analysis, rep):
     rep.run(c04.r044, an, sha)
     rep.run(c06.reset_rules, an, SharedRules(rep, "R05.Z", "normalize strips every positional artefact together (shared with C06's R06.1/R06.2): an override kept on one kind of table entry while the list of "
                                                            "unreferenced entries is dropped leaves a gap in that table, and normalize(x).to_code() raises instead of giving an equivalent code object"))
+    rep.run(r05t, an, rep)
     rep.run(c06.r06n, an, SharedRules(rep, "R05.Y", "normalize folded over witness data full of artefacts (shared with C06's R06.N): every public field - instructions, operands, jump targets, lines, "
                                                    "signature, docstring, free variables, names - comes back as given, at every depth; only private fields change"))
     shg5 = SharedRules(rep, "R05.G", "the decoder's instruction function and parser folded over witness code units (shared with C02's R02.F / R02.8): normalize().to_code() can only mean what c "
@@ -329,3 +330,30 @@ def r053(an, rep):
         rep.add("R05.3", f"{g['fn']}::{what}", not bad, g["where"],
                 (f"guard {norm_src(g['test'])} wrong on {len(bad)} of {n_eval} domain points, e.g. " + bad[0]) if bad
                 else f"guard {norm_src(g['test'])} agrees with the CPython docstring rule on all {n_eval} domain points")
+
+
+def r05t(an, rep, rule="R05.T"):
+    """co_lnotab (3.7-3.9) can hold several entries at one offset; CPython's tracing starts a new line range at every entry whose line delta is not
+    zero, so `+1, -1` at one offset (left by the peephole pass when it folds a multi-line default tuple) fires a `line` event although the line
+    ends where it began.  The decoder keeps such entries in Instruction._line_offsets_override; normalize folded over an instruction that carries
+    (1, -1) must keep the non-zero pieces (entries of zero are the redundant ones the property lets go)."""
+    from sa.feval import BlockOutcome, Obj
+    from .c03 import package_evaluator
+    from .normalize_model import find_normalize
+    rep.rule(rule, "line-table entries that fire a line event survive normalization", 1)
+    fn = find_normalize(an)
+    ev, _R = package_evaluator(an, fn.module, (3, 9))
+    L = ev.lib
+    try:
+        got = ev.call_method(fn.node, L["Instruction"](name="LOAD_CONST", arg=L["Constant"](1), line_number=2, _line_offsets_override=(1, -1)))
+        got0 = ev.call_method(fn.node, L["Instruction"](name="LOAD_CONST", arg=L["Constant"](1), line_number=2, _line_offsets_override=(0,)))
+    except BlockOutcome as o:
+        raise AnalysisError(f"{fn.qual}: stops at `{norm_src(o.node)[:60]}` on a witness instruction")
+    except Exception as ex:  # noqa: BLE001 - a gap of the evaluator, never a verdict
+        raise AnalysisError(f"{fn.qual}: not evaluable on the witness instruction ({type(ex).__name__}: {ex})")
+    kept = tuple(x for x in (got.get("_line_offsets_override") or ()) if x) if isinstance(got, Obj) else None
+    ok = kept == (1, -1)
+    rep.add(rule, f"{fn.qual}::non-zero entries at one offset are kept", ok, loc(fn.module, fn.node),
+            "the pieces (1, -1) survive" if ok else
+            f"normalize of an instruction that carries the extra entries (1, -1) returns {got.get('_line_offsets_override') if isinstance(got, Obj) else got!r}: on 3.8 / 3.9 CPython fires a `line` event at each "
+            f"entry with a non-zero delta, so normalize().to_code() loses a traced line event (entries of zero, here {got0.get('_line_offsets_override') if isinstance(got0, Obj) else got0!r} after normalize, are the redundant ones)")
